@@ -283,6 +283,48 @@ def work_lifetimes(_):
     return n, out
 
 
+def work_realms(_):
+    """Applications registered for other realms than the node's (additional realms; a peer living in another realm): answers to
+    requests addressed to every such realm still carry the *local* Origin-Host and Origin-Realm."""
+    sk.install()
+    from diameter.node import Node
+    from diameter.node.application import Application
+    from diameter.message.commands import AccountingRequest, CreditControlRequest
+    out = []
+    n = 0
+    w = sk.World()
+    try:
+        for extra_realms, peer_realm in ((["realm2.example"], "local.realm.example"), ([], "partner.example"), (["realm2.example", "realm3.example"], "partner.example")):
+            node = Node("local.node.example", "local.realm.example")
+            peer = node.add_peer("aaa://peer.partner.example", peer_realm)
+            apps = {"acct": Application(3, is_acct_application=True), "auth": Application(4, is_auth_application=True)}
+            for a in apps.values():
+                node.add_application(a, [peer], realms=list(extra_realms))
+            for dest in ("local.realm.example", "realm2.example", "realm3.example", "partner.example", "nowhere.example", None):
+                for kind, app in apps.items():
+                    n += 1
+                    req = AccountingRequest() if kind == "acct" else CreditControlRequest()
+                    req.session_id = "s;realm"
+                    req.origin_host = b"peer.partner.example"
+                    req.origin_realm = peer_realm.encode()
+                    if dest is not None:
+                        req.destination_realm = dest.encode()
+                    req.header.hop_by_hop_identifier = 5
+                    req.header.end_to_end_identifier = 6
+                    case = {"realms": extra_realms, "peer_realm": peer_realm, "destination_realm": dest, "via": kind}
+                    try:
+                        ans = app.generate_answer(req, result_code=2001)
+                        f = rc.Frame(ans.as_bytes())
+                        if f.get(264) != b"local.node.example" or f.get(296) != b"local.realm.example":
+                            out.append(Violation("generate_answer[app]:origin-not-local:application-serving-another-realm",
+                                                 f"{case}: answer carries {f.get(264)} / {f.get(296)}", case))
+                    except Exception as e:
+                        out.append(Violation("generate_answer[app]:raises:application-serving-another-realm", f"{case}: {type(e).__name__}: {e}", case))
+    finally:
+        w.shutdown()
+    return n, out
+
+
 def _call(job):
     f, a = job
     return f(a)
@@ -363,7 +405,7 @@ def run(tier):
     jobs = [(work, (lo, lo + 8)) for lo in range(0, len(reg), 8)]
     jobs += [(work_helpers, (lo, lo + 12)) for lo in range(0, len(reg), 12)]
     jobs += [(work_node_paths, (p,)) for p in NODE_PATHS]
-    jobs += [(work_lifetimes, None)]
+    jobs += [(work_lifetimes, None), (work_realms, None)]
     total = 0
     for n, vs in common.pmap(_call, jobs, chunksize=1):
         total += n
@@ -382,6 +424,8 @@ def run(tier):
 def replay(case):
     if "node_path" in case:
         return work_node_paths((case["node_path"],))[1]
+    if "peer_realm" in case:
+        return work_realms(None)[1]
     if "lifetime" in case:
         return [v for v in work_lifetimes(None)[1] if v.case.get("lifetime") == case["lifetime"]]
     # re-run the whole class (cheap) and return what concerns it
